@@ -195,7 +195,30 @@ func dependsOnLocal(v ssa.Value, target func(ssa.Value) bool) bool {
 				}
 			}
 		}
-		if _, isAlloc := v.(*ssa.Alloc); isAlloc {
+		if a, isAlloc := v.(*ssa.Alloc); isAlloc {
+			// a composite built in a local cell (struct literal, varargs array): what is stored into its parts
+			for _, ref := range *a.Referrers() {
+				var addr ssa.Value
+				switch x := ref.(type) {
+				case *ssa.IndexAddr:
+					addr = x
+				case *ssa.FieldAddr:
+					addr = x
+				case *ssa.Store:
+					// the whole value assigned at once (`temp = f(..)`)
+					if x.Addr == ssa.Value(a) && rec(x.Val, d+1) {
+						return true
+					}
+				}
+				if addr == nil {
+					continue
+				}
+				for _, r2 := range *addr.Referrers() {
+					if st, ok := r2.(*ssa.Store); ok && st.Addr == addr && rec(st.Val, d+1) {
+						return true
+					}
+				}
+			}
 			return false
 		}
 		for _, o := range operandsOf(v) {
